@@ -714,9 +714,24 @@ fn convert_qualified_var(
         && !target_is_public
     {
         let target_path = extract_path_from_mangled(lookup_name);
-        let reexporting_module = &resolved_path[..resolved_path.len() - 1];
         let target_module = &target_path[..target_path.len().saturating_sub(1)];
-        if !reexporting_module.starts_with(target_module) {
+        // every re-export on the alias chain must sit where the target is visible
+        let mut hop = resolved_name;
+        let mut visited = HashSet::new();
+        let mut all_hops_may_see_target = true;
+        while hop != lookup_name && visited.insert(hop) {
+            let hop_path = extract_path_from_mangled(hop);
+            let reexporting_module = &hop_path[..hop_path.len().saturating_sub(1)];
+            if !reexporting_module.starts_with(target_module) {
+                all_hops_may_see_target = false;
+                break;
+            }
+            match ctx.module_info.use_alias_map.get(&hop).copied() {
+                Some(next) if next != hop => hop = next,
+                _ => break,
+            }
+        }
+        if !all_hops_may_see_target {
             ctx.errors.push(Error::PrivateMemberAccess {
                 module_path: target_module.to_vec(),
                 member: *target_path.last().unwrap(),
